@@ -411,3 +411,37 @@ fn leaf_slice_casts_are_identity() {
         if cap > 0 { assert!(back[0].name.as_ptr() == SENTINEL.as_ptr()); }
     }
 }
+
+// ---------------------------------------------------------------------------------------------- std shims (bounded)
+// R9 shim `slice_rposition` = `s.iter().rposition(p)`: last index whose byte satisfies p, with the trimming predicate of the
+// header routine; bounded: slices of at most 6 bytes
+#[kani::proof]
+#[kani::unwind(8)]
+fn leaf_rposition_shim() {
+    let arr: [u8; 6] = kani::any();
+    let len: usize = kani::any_where(|l: &usize| *l <= 6);
+    let s = &arr[..len];
+    let p = |b: &u8| *b != b' ' && *b != b'\t' && *b != b'\r' && *b != b'\n';
+    let r = s.iter().rposition(p);
+    match r {
+        Some(i) => {
+            assert!(i < len && p(&s[i]));
+            let mut j = i + 1;
+            while j < len { assert!(!p(&s[j])); j += 1; }
+        }
+        None => { let mut j = 0; while j < len { assert!(!p(&s[j])); j += 1; } }
+    }
+}
+// ASCII bytes are valid UTF-8 and from_utf8 returns exactly those bytes; bounded: at most 4 bytes
+#[kani::proof]
+#[kani::unwind(6)]
+fn leaf_ascii_is_utf8() {
+    let arr: [u8; 4] = kani::any();
+    let len: usize = kani::any_where(|l: &usize| *l <= 4);
+    let s = &arr[..len];
+    let mut i = 0;
+    while i < len { kani::assume(s[i] < 0x80); i += 1; }
+    let r = core::str::from_utf8(s);
+    assert!(r.is_ok());
+    assert!(r.unwrap().as_bytes().as_ptr() == s.as_ptr() && r.unwrap().len() == len);
+}
